@@ -1,5 +1,6 @@
 import LitexProofs.WaitTimer
 import LitexProofs.Timeout.Wb
+import LitexProofs.Timeout.Axi
 /-
   C11 — A silent or absent slave cannot hang the bus.
 
@@ -233,6 +234,235 @@ theorem wb_bounded_termination (ht : c.t = some t) (xs : List BusIn) :
   rw [run_count_spec c ht]; omega
 
 end wbShared
+
+/-! ## AXI-Lite / AXI: the timeout FSMs alone, any bus behaviour
+
+  `wTimeout t` / `rTimeout full dw t` are the write / read halves of `AXILiteTimeout` (`full = false`) and
+  `AXITimeout` (`full = true`); their inputs are the watched bus (request side and the decoder's answer),
+  chosen freely in every cycle.  Exact numbers, counting the first waiting cycle as cycle 0: `error` pulse in
+  cycle `t`, RESPOND from cycle `t+1` (absorbs AW/W resp. AR in the cycle they are offered), SLVERR response
+  offered in the first RESPOND cycle in which the master offers no address/data beat — cycle `t+2` for a
+  master that holds its valids until accepted. -/
+
+section axFsm
+open Axi
+
+/-- WAIT is transparent: whatever the history, while the FSM is in WAIT the master side of the bus carries
+    exactly the decoder's `aw.ready`, `w.ready`, `b.valid`, `b.resp` (**undisturbed**). -/
+theorem axl_wr_transparent (s : FState) (x : WIn) (h : s.respond = false) :
+    (wOut s x).awr = x.awr ∧ (wOut s x).wr = x.wr ∧ (wOut s x).bv = x.bv ∧ (wOut s x).bresp = x.bresp := by
+  simp [wOut, h]
+
+/-- **axl_timeout_exact (write).**  For every history: the error pulse (= entry into RESPOND) happens exactly in
+    a WAIT cycle in which an AW/W beat is pending and unaccepted (`wait_cond`) after at least `t` consecutive
+    such cycles — never earlier, and not if the slave accepts in the expiry cycle (`wait_cond = 0`). -/
+theorem axl_wr_timeout_exact (t : Nat) (xs : List WIn) (x : WIn) :
+    let s := (wTimeout t).run xs
+    ((wOut s x).error = true ↔ s.respond = false ∧ t ≤ wWaited t xs ∧ wWaitCond x = true) ∧
+    ((wNext t s x).respond = true ↔
+      (wOut s x).error = true ∨ (s.respond = true ∧ ¬(x.awv = false ∧ x.wv = false ∧ x.br = true))) := by
+  intro s
+  have hc : s.count = t - min t (wWaited t xs) := wRun_count_spec t xs
+  have hd : WaitTimer.done s.count = true ↔ t ≤ wWaited t xs := by
+    simp [WaitTimer.done, hc]; omega
+  constructor
+  · cases hr : s.respond <;> simp [wOut, hr, hd]
+  · cases hr : s.respond
+    · simp [wNext, wOut, hr]
+    · cases ha : x.awv <;> cases hw : x.wv <;> cases hb : x.br <;> simp [wNext, wOut, hr, ha, hw, hb]
+
+/-- **Forced response.**  In RESPOND the FSM accepts whatever address/data beat is offered, offers `B` with
+    `SLVERR` as soon as none is offered, and signals no further error. -/
+theorem axl_wr_forced (s : FState) (x : WIn) (h : s.respond = true) :
+    wOut s x = { awr := x.awv, wr := x.wv, bv := !x.awv && !x.wv, bresp := RESP_SLVERR, error := false } := by
+  simp [wOut, h]
+
+/-- **axl_timeout_recovers (write).**  The forced `B` handshake returns the FSM to its reset state (WAIT, timer
+    reloaded): nothing of the timeout is remembered. -/
+theorem axl_wr_recovers (t : Nat) (s : FState) (x : WIn) (h : s.respond = true)
+    (haw : x.awv = false) (hw : x.wv = false) (hb : x.br = true) : wNext t s x = fInit t := by
+  simp [wNext, wOut, wWait, h, haw, hw, hb, fInit, WaitTimer.next]
+
+/-- **axl_timeout_undisturbed (write).**  Whenever the pending beats are accepted (or nothing is pending) in a
+    WAIT cycle — including the very cycle in which the timer has expired — there is no error, no RESPOND, and
+    the timer is reloaded. -/
+theorem axl_wr_undisturbed (t : Nat) (s : FState) (x : WIn) (h : s.respond = false)
+    (hacc : wWaitCond x = false) : (wOut s x).error = false ∧ wNext t s x = fInit t := by
+  simp [wNext, wOut, wWait, h, hacc, fInit, WaitTimer.next]
+
+/-- Waiting stretch: from a freshly loaded timer, `ys.length ≤ t` cycles with a pending unaccepted beat give no
+    error and leave `count = t - ys.length`. -/
+theorem axl_wr_waiting (t : Nat) (ys : List WIn) : ∀ (cnt : Nat), ys.length ≤ cnt → cnt ≤ t →
+    (∀ y ∈ ys, wWaitCond y = true) →
+    (wTimeout t).runFrom { count := cnt, respond := false } ys = { count := cnt - ys.length, respond := false } ∧
+    ∀ o ∈ (wTimeout t).traceFrom { count := cnt, respond := false } ys, o.error = false := by
+  induction ys with
+  | nil => intro cnt _ _ _; simp [Machine.runFrom, Machine.traceFrom]
+  | cons y ys ih =>
+    intro cnt hl hct hw
+    have hy := hw y (by simp)
+    have hpos : cnt ≠ 0 := by simp at hl; omega
+    have hstep : wNext t { count := cnt, respond := false } y = { count := cnt - 1, respond := false } := by
+      simp [wNext, wWait, hy, WaitTimer.next, WaitTimer.done, hpos]
+    have herr : (wOut { count := cnt, respond := false } y).error = false := by
+      simp [wOut, WaitTimer.done, hpos]
+    obtain ⟨h1, h2⟩ := ih (cnt - 1) (by simp at hl; omega) (by omega) (fun z hz => hw z (by simp [hz]))
+    refine ⟨?_, ?_⟩
+    · show (wTimeout t).runFrom (wNext t _ y) ys = _
+      rw [hstep, h1]; simp; omega
+    · intro o ho
+      simp only [Machine.traceFrom, List.mem_cons] at ho
+      rcases ho with rfl | ho
+      · exact herr
+      · have : (wTimeout t).next { count := cnt, respond := false } y = { count := cnt - 1, respond := false } := hstep
+        rw [this] at ho; exact h2 o ho
+
+/-- **axl_timeout_bound (write), exact numbers.**  From reset state (or any state with WAIT and a reloaded
+    timer): `t` cycles with a pending unaccepted beat (`ys`), then one more (`x0`): error pulse exactly there
+    (cycle `t`), none before.  Next cycle (`x1`, master still offering a beat): the beat(s) are accepted by the
+    FSM, no `B` yet.  Next cycle (`x2`, nothing offered, `b.ready`): `B` with `SLVERR`, and the FSM is back in its
+    reset state. -/
+theorem axl_wr_timeout_bound (t : Nat) (ys : List WIn) (x0 x1 x2 : WIn)
+    (hlen : ys.length = t) (hys : ∀ y ∈ ys, wWaitCond y = true) (h0 : wWaitCond x0 = true)
+    (h1 : (x1.awv || x1.wv) = true) (h2 : x2.awv = false ∧ x2.wv = false ∧ x2.br = true) :
+    let m := wTimeout t
+    let s0 := m.runFrom (fInit t) ys
+    let s1 := m.next s0 x0
+    let s2 := m.next s1 x1
+    (∀ o ∈ m.traceFrom (fInit t) ys, o.error = false) ∧
+    (m.out s0 x0).error = true ∧
+    m.out s1 x1 = { awr := x1.awv, wr := x1.wv, bv := false, bresp := RESP_SLVERR, error := false } ∧
+    m.out s2 x2 = { awr := false, wr := false, bv := true, bresp := RESP_SLVERR, error := false } ∧
+    m.next s2 x2 = fInit t := by
+  intro m s0 s1 s2
+  obtain ⟨hr, he⟩ := axl_wr_waiting t ys t (by omega) (by omega) hys
+  have hs0 : s0 = { count := 0, respond := false } := by
+    show (wTimeout t).runFrom (fInit t) ys = _
+    rw [show fInit t = { count := t, respond := false } from rfl, hr, hlen]; simp
+  have hs1 : s1 = { count := 0, respond := true } := by
+    show wNext t s0 x0 = _
+    rw [hs0]; simp [wNext, wWait, h0, WaitTimer.next, WaitTimer.done]
+  have hs2 : s2.respond = true := by
+    show (wNext t s1 x1).respond = true
+    rw [hs1]
+    cases ha : x1.awv <;> cases hw : x1.wv <;> simp [wNext, wOut, ha, hw] <;> simp [ha, hw] at h1
+  refine ⟨he, ?_, ?_, ?_, ?_⟩
+  · show (wOut s0 x0).error = true
+    rw [hs0]; simp [wOut, WaitTimer.done, h0]
+  · show wOut s1 x1 = _
+    rw [hs1]
+    cases ha : x1.awv <;> cases hw : x1.wv <;> simp [wOut, ha, hw] <;> simp [ha, hw] at h1
+  · show wOut s2 x2 = _
+    rw [axl_wr_forced s2 x2 hs2]; simp [h2.1, h2.2.1]
+  · exact axl_wr_recovers t s2 x2 hs2 h2.1 h2.2.1 h2.2.2
+
+/-! Read direction (AXI-Lite: `full = false`; AXI: `full = true`, forced `r.last = 1`). -/
+
+theorem axl_rd_transparent (full : Bool) (dw : Nat) (s : FState) (x : RIn) (h : s.respond = false) :
+    (rOut full dw s x).arr = x.arr ∧ (rOut full dw s x).rv = x.rv ∧ (rOut full dw s x).rresp = x.rresp ∧
+    (rOut full dw s x).rdata = x.rdata ∧ (rOut full dw s x).rlast = x.rlast := by
+  simp [rOut, h]
+
+/-- **axl_timeout_exact (read).** -/
+theorem axl_rd_timeout_exact (full : Bool) (dw t : Nat) (xs : List RIn) (x : RIn) :
+    let s := (rTimeout full dw t).run xs
+    ((rOut full dw s x).error = true ↔ s.respond = false ∧ t ≤ rWaited full dw t xs ∧ rWaitCond x = true) ∧
+    ((rNext full dw t s x).respond = true ↔
+      (rOut full dw s x).error = true ∨ (s.respond = true ∧ ¬(x.arv = false ∧ x.rr = true))) := by
+  intro s
+  have hc : s.count = t - min t (rWaited full dw t xs) := rRun_count_spec full dw t xs
+  have hd : WaitTimer.done s.count = true ↔ t ≤ rWaited full dw t xs := by
+    simp [WaitTimer.done, hc]; omega
+  constructor
+  · cases hr : s.respond <;> simp [rOut, hr, hd]
+  · cases hr : s.respond
+    · simp [rNext, rOut, hr]
+    · cases ha : x.arv <;> cases hb : x.rr <;> simp [rNext, rOut, hr, ha, hb]
+
+/-- Forced read response: `SLVERR`, all-ones data, and `r.last = 1` on AXI. -/
+theorem axl_rd_forced (full : Bool) (dw : Nat) (s : FState) (x : RIn) (h : s.respond = true) :
+    rOut full dw s x = { arr := x.arv, rv := !x.arv, rresp := RESP_SLVERR, rdata := Wb.ones dw,
+                         rlast := if full then true else x.rlast, error := false } := by
+  simp [rOut, h]
+
+theorem axi_rd_forced_last (dw : Nat) (s : FState) (x : RIn) (h : s.respond = true) :
+    (rOut true dw s x).rlast = true := by simp [rOut, h]
+
+theorem axl_rd_recovers (full : Bool) (dw t : Nat) (s : FState) (x : RIn) (h : s.respond = true)
+    (ha : x.arv = false) (hr : x.rr = true) : rNext full dw t s x = fInit t := by
+  simp [rNext, rOut, rWait, h, ha, hr, fInit, WaitTimer.next]
+
+theorem axl_rd_undisturbed (full : Bool) (dw t : Nat) (s : FState) (x : RIn) (h : s.respond = false)
+    (hacc : rWaitCond x = false) : (rOut full dw s x).error = false ∧ rNext full dw t s x = fInit t := by
+  simp [rNext, rOut, rWait, h, hacc, fInit, WaitTimer.next]
+
+theorem axl_rd_waiting (full : Bool) (dw t : Nat) (ys : List RIn) : ∀ (cnt : Nat), ys.length ≤ cnt → cnt ≤ t →
+    (∀ y ∈ ys, rWaitCond y = true) →
+    (rTimeout full dw t).runFrom { count := cnt, respond := false } ys =
+      { count := cnt - ys.length, respond := false } ∧
+    ∀ o ∈ (rTimeout full dw t).traceFrom { count := cnt, respond := false } ys, o.error = false := by
+  induction ys with
+  | nil => intro cnt _ _ _; simp [Machine.runFrom, Machine.traceFrom]
+  | cons y ys ih =>
+    intro cnt hl hct hw
+    have hy := hw y (by simp)
+    have hpos : cnt ≠ 0 := by simp at hl; omega
+    have hstep : rNext full dw t { count := cnt, respond := false } y = { count := cnt - 1, respond := false } := by
+      simp [rNext, rWait, hy, WaitTimer.next, WaitTimer.done, hpos]
+    have herr : (rOut full dw { count := cnt, respond := false } y).error = false := by
+      simp [rOut, WaitTimer.done, hpos]
+    obtain ⟨h1, h2⟩ := ih (cnt - 1) (by simp at hl; omega) (by omega) (fun z hz => hw z (by simp [hz]))
+    refine ⟨?_, ?_⟩
+    · show (rTimeout full dw t).runFrom (rNext full dw t _ y) ys = _
+      rw [hstep, h1]; simp; omega
+    · intro o ho
+      simp only [Machine.traceFrom, List.mem_cons] at ho
+      rcases ho with rfl | ho
+      · exact herr
+      · have : (rTimeout full dw t).next { count := cnt, respond := false } y =
+            { count := cnt - 1, respond := false } := hstep
+        rw [this] at ho; exact h2 o ho
+
+/-- **axl_timeout_bound (read), exact numbers**: error pulse in cycle `t`, AR absorbed in cycle `t+1`, `R` with
+    `SLVERR`/all-ones (and `last` on AXI) in cycle `t+2`, then reset state. -/
+theorem axl_rd_timeout_bound (full : Bool) (dw t : Nat) (ys : List RIn) (x0 x1 x2 : RIn)
+    (hlen : ys.length = t) (hys : ∀ y ∈ ys, rWaitCond y = true) (h0 : rWaitCond x0 = true)
+    (h1 : x1.arv = true) (h2 : x2.arv = false ∧ x2.rr = true) :
+    let m := rTimeout full dw t
+    let s0 := m.runFrom (fInit t) ys
+    let s1 := m.next s0 x0
+    let s2 := m.next s1 x1
+    (∀ o ∈ m.traceFrom (fInit t) ys, o.error = false) ∧
+    (m.out s0 x0).error = true ∧
+    ((m.out s1 x1).arr = true ∧ (m.out s1 x1).rv = false ∧ (m.out s1 x1).error = false) ∧
+    ((m.out s2 x2).rv = true ∧ (m.out s2 x2).rresp = RESP_SLVERR ∧ (m.out s2 x2).rdata = Wb.ones dw ∧
+      (full = true → (m.out s2 x2).rlast = true) ∧ (m.out s2 x2).error = false) ∧
+    m.next s2 x2 = fInit t := by
+  intro m s0 s1 s2
+  obtain ⟨hr, he⟩ := axl_rd_waiting full dw t ys t (by omega) (by omega) hys
+  have hs0 : s0 = { count := 0, respond := false } := by
+    show (rTimeout full dw t).runFrom (fInit t) ys = _
+    rw [show fInit t = { count := t, respond := false } from rfl, hr, hlen]; simp
+  have hs1 : s1 = { count := 0, respond := true } := by
+    show rNext full dw t s0 x0 = _
+    rw [hs0]; simp [rNext, rWait, h0, WaitTimer.next, WaitTimer.done]
+  have hs2 : s2.respond = true := by
+    show (rNext full dw t s1 x1).respond = true
+    rw [hs1]; simp [rNext, rOut, h1]
+  refine ⟨he, ?_, ?_, ?_, ?_⟩
+  · show (rOut full dw s0 x0).error = true
+    rw [hs0]; simp [rOut, WaitTimer.done, h0]
+  · show (rOut full dw s1 x1).arr = true ∧ (rOut full dw s1 x1).rv = false ∧ (rOut full dw s1 x1).error = false
+    rw [hs1]; simp [rOut, h1]
+  · show (rOut full dw s2 x2).rv = true ∧ (rOut full dw s2 x2).rresp = RESP_SLVERR ∧
+      (rOut full dw s2 x2).rdata = Wb.ones dw ∧ (full = true → (rOut full dw s2 x2).rlast = true) ∧
+      (rOut full dw s2 x2).error = false
+    rw [axl_rd_forced full dw s2 x2 hs2]
+    refine ⟨by simp [h2.1], rfl, rfl, ?_, rfl⟩
+    intro hf; simp [hf]
+  · exact axl_rd_recovers full dw t s2 x2 hs2 h2.1 h2.2
+
+end axFsm
 
 /-! ## Wishbone `Crossbar`: `timeout_cycles` is ignored (known finding C11-crossbar-timeout-ignored) -/
 
